@@ -68,6 +68,7 @@ class Engine(OpsMixin):
         self.model = None
         self.pc = []
         self.symdicts = {}
+        self.symsets = {}
         self.divmod_cache = {}
         self.fp_origin = {}
         self.fp_pack_cache = {}
@@ -528,8 +529,19 @@ class Engine(OpsMixin):
                 return self.symdict_method(recv, name, args, kwargs)
             if name in self.DATA_MOVERS[dict]:
                 return fn(*args, **kwargs)
-        if isinstance(recv, set) and name in self.DATA_MOVERS[set] and not any(is_sym(a) for a in args):
-            return fn(*args, **kwargs)
+        if isinstance(recv, set):
+            if name == "add" and deep_sym(args[0]):
+                ent = self.symsets.setdefault(id(recv), (recv, []))[1]
+                for k in list(recv) + ent:
+                    c = self.cmp("Eq", args[0], k)
+                    if c is False:
+                        continue
+                    if self.truth(c):
+                        return None
+                ent.append(args[0])
+                return None
+            if name in self.DATA_MOVERS[set] and not any(deep_sym(a) for a in args):
+                return fn(*args, **kwargs)
         return NotImplemented
 
     def list_method(self, lst, name, args):
@@ -1111,6 +1123,8 @@ class Engine(OpsMixin):
             return self.call_function(ln, [obj], {})
         if isinstance(obj, dict) and id(obj) in self.symdicts:
             return len(obj) + len(self.symdicts[id(obj)][1])
+        if isinstance(obj, set) and id(obj) in self.symsets:
+            return len(obj) + len(self.symsets[id(obj)][1])
         return len(obj)
 
     # ======================================================================= expressions
@@ -1321,7 +1335,12 @@ class Engine(OpsMixin):
                         return obj[k]
                 miss = _find_in_mro(type(obj), "__missing__")
                 if miss is not None:
-                    raise Unsupported("defaultdict miss with symbolic key")
+                    import collections
+                    if isinstance(obj, collections.defaultdict) and obj.default_factory is not None:
+                        v = self.call(obj.default_factory, [], {})
+                        self.symdicts.setdefault(id(obj), (obj, []))[1].append((idx, v))
+                        return v
+                    raise Unsupported("dict subclass miss with symbolic key")
                 raise KeyError(_ExcArg(idx))
             return obj[idx]
         if is_sym(idx) and isinstance(obj, (list, tuple, str, bytes, bytearray, range)):
@@ -1515,6 +1534,8 @@ class Engine(OpsMixin):
             raise TypeError(f"'{type(it).__name__}' object is not iterable")
         if isinstance(it, dict) and id(it) in self.symdicts:
             return list(it.keys()) + [k for k, _ in self.symdicts[id(it)][1]]
+        if isinstance(it, set) and id(it) in self.symsets:
+            return list(it) + list(self.symsets[id(it)][1])
         if isinstance(it, (list, tuple, dict, str, bytes, bytearray, range, set, frozenset)):
             return it
         im = _find_in_mro(type(it), "__iter__")
